@@ -115,7 +115,7 @@ type pathState struct {
 	sliceAt  map[*value][]value
 	mapWrites []*gmap
 	syncEvents []string
-	relDiv   map[relDivKey]relDivQR // zz_reldiv.go
+	relDiv, relDivS map[relDivKey]relDivQR // zz_reldiv.go
 }
 
 type undoRec struct {
@@ -371,6 +371,14 @@ func (ps *pathState) inputVars() []*smt.Term {
 // modelFor returns input values satisfying pc ∧ extras.
 func (ps *pathState) modelFor(extras ...*smt.Term) (smt.Result, map[string]uint64) {
 	r, all := ps.sol.Check(extras, ps.ctx.Vars)
+	if r == smt.Unsat && ps.w.Cross != nil {
+		// diff a second solver on every discharged assertion query
+		ps.w.CrossChecked++
+		if r2 := ps.w.Cross.DecideFresh(ps.ctx, ps.sol.Asserted(), extras); r2 == smt.Sat {
+			ps.w.CrossDisagree++
+			r = smt.Unknown
+		}
+	}
 	if r == smt.Unknown {
 		ps.res.Unknowns++
 	}
